@@ -183,12 +183,40 @@ func c08Run(c *ev.Ctx) {
 		sizes = append(sizes, 65536, 1<<20)
 	}
 	rp := readerPipeline(fs)
+	// periodic payloads: a random block repeated, with periods around the match-length,
+	// literal-run and window limits of the compressors (back references at exactly those
+	// distances); encoded as (period<<8 | 5) in the kind slot
+	type payloadSpec struct{ n, kind int }
+	var specsP []payloadSpec
 	for _, n := range sizes {
 		for kind := 0; kind < 5; kind++ {
 			if (n == 0 || n == 1) && kind > 1 {
 				continue
 			}
-			x := c08Payload(r, kind, n)
+			specsP = append(specsP, payloadSpec{n, kind})
+		}
+	}
+	for _, per := range []int{1, 2, 3, 8, 31, 32, 33, 255, 256, 257, 263, 264, 265, 8191, 8192, 8193, 8194, 32767, 32768, 32769} {
+		if per > 9000 && !c.Thorough() {
+			continue
+		}
+		specsP = append(specsP, payloadSpec{per*2 + 320, per<<8 | 5})
+	}
+	for _, ps := range specsP {
+		n, kind := ps.n, ps.kind
+		{
+			var x []byte
+			if kind&0xff == 5 {
+				per := kind >> 8
+				blk := r.Bytes(per)
+				x = make([]byte, n-n%16) // a multiple of every shuffle element size
+				for i := range x {
+					x[i] = blk[i%per]
+				}
+				kind = 5
+			} else {
+				x = c08Payload(r, kind, n)
+			}
 			c.Evals(1)
 			enc, err := pl.Apply(x)
 			if err != nil {
@@ -262,7 +290,7 @@ func c08Run(c *ev.Ctx) {
 	c.Case("pkg|"+fmt.Sprint(specs), true)
 	c.Count("pipelines", 1)
 	if c.Index < 3 {
-		c.Sample(map[string]any{"pipeline": fmt.Sprint(specs), "payload_sizes": sizes, "payload_kinds": "zeros, ramp, random, text, float-like"})
+		c.Sample(map[string]any{"pipeline": fmt.Sprint(specs), "payload_sizes": sizes, "payload_kinds": "zeros, ramp, random, text, float-like, periodic (random block repeated with period 1..8194, thorough ..32769)"})
 	}
 }
 
@@ -465,7 +493,7 @@ func c08EndToEnd(c *ev.Ctx) {
 var C08 = &ev.Property{
 	ID:    "C08",
 	Level: "exploration",
-	Rule: "package level: every ordered selection of distinct filters from {deflate(level 1-9), shuffle(elem 1,2,4,8,16), fletcher32, lzf} (64 orderings × seeded parameters) × 18-20 payload sizes (0 B..4 KiB, thorough up to 1 MiB) × 5 payload kinds: Apply/Remove identity, pipeline message encode/parse identity, reader (core.ApplyFilters on a description built from the filters' ids/client data) decodes the writer's bytes; " +
+	Rule: "package level: every ordered selection of distinct filters from {deflate(level 1-9), shuffle(elem 1,2,4,8,16), fletcher32, lzf} (64 orderings × seeded parameters) × 18-20 payload sizes (0 B..4 KiB, thorough up to 1 MiB) × 5 payload kinds plus periodic payloads (a random block repeated at periods 1,2,3,8,31-33,255-257,263-265,8191-8194 and, thorough, 32767-32769: back references at the compressors' length and window limits): Apply/Remove identity, pipeline message encode/parse identity, reader (core.ApplyFilters on a description built from the filters' ids/client data) decodes the writer's bytes; " +
 		"for pipelines ending in fletcher32 every byte position (<=512 B) or 200 sampled positions of the stored chunk is altered by a bit flip and both decoders must report an error. End to end: chunked filtered datasets through the public API in all accepted option combinations × superblock 0/2/3, reopened and read. " +
 		"distinct = distinct (pipeline with parameters) or e2e configuration descriptors; all are non-trivial.",
 	Assumptions: []string{
